@@ -56,7 +56,7 @@ TEXT = {
             'random.choice / numpy.random.binomial replaced by enumerating choosers; K4 (set divider shares mutable objects) is a known finding.',
             'bounded exhaustive input enumeration incl. all random outcomes, before/after differential for independence'),
     'C19': ('exploration', '3/C19',
-            'All event lists up to length 3/4 in every order with duplicate times, plus all time sequences of length 4/5, x 4 timeline timesteps are run in a real Engine with the real TimelineProcess (also via add_timeline) and compared with the first-tick-reached reference trajectory. Also timesteps 0.1 / 0.3 judged on the simulation"s own clock variable, and a TimelineProcess object simulated twice.',
+            'All event lists up to length 3/4 in every order with duplicate times, plus all time sequences of length 4/5, x 4 timeline timesteps are run in a real Engine with the real TimelineProcess (also via add_timeline) and compared with the first-tick-reached reference trajectory. Also timesteps 0.1 / 0.3 judged on the simulation"s own clock variable, and a TimelineProcess object simulated twice, scripted update()/run_for() call sequences that cut a tick, empty events, list- and dictionary-valued events.',
             'Timesteps divide the run length; several events on one variable in one tick apply in (time, listing) order.',
             'exhaustive enumeration of event lists against a reference trajectory'),
     'C06': ('exploration', '3/C06',
@@ -64,7 +64,7 @@ TEXT = {
             'Topologies that omit ports or list only some variables in a _path-less dictionary are outside the well-formed alphabet; nodes that would be both variable and store are skipped.',
             'bounded exhaustive program enumeration (schema x topology grammar) against a reference resolver with a full-state diff'),
     'C15': ('exploration', '3/C15',
-            'For 1-3 processes with ports from the topology grammar that share variables, EVERY subset of resolved nodes is given an explicit initial value and the store is built through Engine(...) and generate_state(...); every node must hold explicit-else-default at the node named by the reference resolver; named glob children must exist with declared defaults; conflicting _value/_units/_serializer declarations must raise ValueError; Composite.initial_state()/default_state() are compared with per-process values mapped through the resolver. Also glob co-declarers, rebuilds after a declaration changed, one schema object shared by two processes, dictionary- and array-valued conflicts.',
+            'For 1-3 processes with ports from the topology grammar that share variables, EVERY subset of resolved nodes is given an explicit initial value and the store is built through Engine(...) and generate_state(...); every node must hold explicit-else-default at the node named by the reference resolver; named glob children must exist with declared defaults; conflicting _value/_units/_serializer declarations must raise ValueError; Composite.initial_state()/default_state() are compared with per-process values mapped through the resolver. Also glob co-declarers, rebuilds after a declaration changed, one schema object shared by two processes, dictionary- and array-valued conflicts, undeclared keys in the initial state, processes that return a dictionary they keep from initial_state() (call sequences on one Composite).',
             'Sharers declare equal defaults; differing defaults are merged silently by design.',
             'bounded exhaustive enumeration of composites x initial-state subsets against a reference resolver'),
     'C07': ('model_checking', '3/C07',
@@ -80,7 +80,7 @@ TEXT = {
             'Steps are idempotent derivations; K2 (_move of a busy process) is a known finding.',
             'explicit-state BFS over operation histories with a reference schedule, a published-composite invariant and a rebuilt-engine differential'),
     'C16': ('exploration', '3/C16',
-            'Four template composers x embedding paths x ALL merge sequences up to length 3/4 x three engine entry points x schema overrides; union model for merges, deep-equality snapshots of merged-in and unrelated composites (then and later), trajectory equality across entry points and re-rooted embeddings. Also Process.generate, MetaComposer, overrides that survive later merges, overrides with several entries.',
+            'Four template composers x embedding paths x ALL merge sequences up to length 3/4 x three engine entry points x schema overrides; union model for merges, deep-equality snapshots of merged-in and unrelated composites (then and later), trajectory equality across entry points and re-rooted embeddings. Also Process.generate, MetaComposer, overrides that survive later merges, overrides with several entries, override isolation between processes of one Composer, Composer reuse, Step objects listed under processes, merged state against a process"s own initial state.',
             'Entry points compared on an explicit initial state; K5 (no explicit state) is a known finding.',
             'bounded exhaustive enumeration of merge sequences and entry points with a union model and differential trajectories'),
     'C13': ('fault_enumeration', '3/C13',
